@@ -101,9 +101,10 @@ def systematic_cases():
     for store, defs, nmax in ((store1, defs1, 7), (store2, defs2, 5)):
         for k in range(nmax):
             for k2 in (None, 0, k):
-                ops = list(defs) + [["arm", k], ["set", R("a"), ["plain", 4]]]
+                kind = ["Fault", "StopIteration", "BaseFault", "KeyError"][(k + (k2 or 0) + (k2 is None)) % 4]
+                ops = list(defs) + [["arm", k, kind], ["set", R("a"), ["plain", 4]]]
                 if k2 is not None:
-                    ops += [["arm", k2], ["set", R("a"), ["plain", 4]]]
+                    ops += [["arm", k2, kind], ["set", R("a"), ["plain", 4]]]
                 ops += [["disarm"], ["set", R("a"), ["plain", 4]]]
                 out.append({"store": store, "ops": ops})
     return out
@@ -111,7 +112,8 @@ def systematic_cases():
 
 def run(ctx):
     ctx.rule = ("random manager histories of expression and function tasks over fault-injecting containers: the k-th container write of an "
-                "update raises (k = 0 is the assigned location itself), 1-3 faulty updates in a row, then the fault-free repeat; a twin "
+                "update raises (k = 0 is the assigned location itself) an exception of a random class (custom Exception, StopIteration, KeyError, "
+                "ValueError, AttributeError, TypeError, ZeroDivisionError, RecursionError, BaseException subclasses), 1-3 faulty updates in a row, then the fault-free repeat; a twin "
                 "fault-free run of the same history is the reference; non-trivial = a fault that fired after >= 1 task had run; distinct by op list")
     ctx.scale_if_changed()
     proof_ok = vlib.standard_proof_part(ctx, "props/C18.v", extra_targets=["run/RunManager.vo"])
